@@ -36,7 +36,8 @@ theorem eval_mono {o o' : Opts} (h : o ≤ o') (env : Env) (f : Formula) (hp : f
 /-- the hypothesis cannot be dropped -/
 theorem eval_not_mono_nopt : ¬ (∀ (f : Formula) (o o' : Opts) (env : Env), o ≤ o' → eval o env f = true → eval o' env f = true) := by
   intro h
-  have := h (.nopt .inconclusive) ⟨fun _ => false, false⟩ ⟨fun _ => true, true⟩ env0 ⟨fun _ hs => by cases hs, fun hi => by cases hi⟩ rfl
+  have hle : (⟨fun _ => false, false⟩ : Opts) ≤ ⟨fun _ => true, true⟩ := ⟨fun _ _ => rfl, fun _ => rfl⟩
+  have := h (.nopt .inconclusive) _ _ env0 hle rfl
   cases this
 
 theorem evalDnf_append (o : Opts) (env : Env) (xs ys : List Conj) :
